@@ -27,6 +27,8 @@ pub const FOREIGN: &[&str] = &[
     "<math><math><mi>x</mi></math><![CDATA[<a>]]><a/><mi><a>t</a></mi></math><a>",
     "<svg><svg></svg><a/><title><a></title><![CDATA[<a>]]></svg><a>",
     "<svg><g><svg><g></g></svg></g><a/><desc><a>x</a></desc></svg>",
+    // an svg island inside MathML annotation-xml
+    "<math><semantics><annotation-xml encoding=\"SVG1.1\"><svg k=v><a/><title><a>t</a></title></svg></annotation-xml><a></a></semantics></math><a>",
 ];
 
 fn subject_menu() -> Vec<(&'static str, Vec<HSpec>)> {
@@ -42,6 +44,7 @@ fn subject_menu() -> Vec<(&'static str, Vec<HSpec>)> {
         ("text(script),text(textarea)", vec![HSpec::obs(HKind::Text, "script"), HSpec::obs(HKind::Text, "textarea")]),
         // handlers that need the END tag of a foreign root (the scanner hands it to the lexer)
         ("endtag(svg),endtag(math),el(a)", vec![HSpec::obs_end_tag("svg"), HSpec::obs_end_tag("math"), HSpec::obs(HKind::Element, "a")]),
+        ("el(svg),el(math),el(a)", vec![HSpec::obs(HKind::Element, "svg"), HSpec::obs(HKind::Element, "math"), HSpec::obs(HKind::Element, "a")]),
         ("mark-after(svg),mark-after(math),el(a)", vec![HSpec::with_ops(HKind::Element, "svg", vec![Op::After("\x01s\x02".into(), true)]), HSpec::with_ops(HKind::Element, "math", vec![Op::Append("\x01m\x02".into(), true)]), HSpec::obs(HKind::Element, "a")]),
     ]
 }
@@ -212,20 +215,20 @@ pub fn run_check(ctx: &Ctx) -> i32 {
         let full = build_pairs(&subjects, &all_masks, &[true]);
         let few = build_pairs(&subjects, &few_masks, &[true, false]);
         let two = build_pairs(&subjects, &[0b001000, 0b111111], &[true]);
-        sweep(ctx, "F<=2 x 10 subjects x all 63 observer subsets x L0,L1", Space::Frags { k, max: 2 }, &full, l1);
-        foreign(&full, l1, "16 foreign-content documents x all pairs x L0,L1");
-        sweep(ctx, "Fcore<=3 x 10 subjects x 7 observer subsets x strict{t,f} x L0,LB", Space::Frags { k: F_CORE, max: 3 }, &few, l0);
-        sweep(ctx, "F<=3 x 10 subjects x 2 observer subsets x L0", Space::Frags { k, max: 3 }, &two, Levels { l1: false, l2_max_len: 0, bytewise: false, empties: false });
-        sweep(ctx, "7 foreign contexts x 55 foreign tag fragments<=2 x 10 subjects x 2 observer subsets x L0,L1", Space::Foreign { max: 2 }, &two, l1);
+        sweep(ctx, "F<=2 x 11 subjects x all 63 observer subsets x L0,L1", Space::Frags { k, max: 2 }, &full, l1);
+        foreign(&full, l1, "17 foreign-content documents x all pairs x L0,L1");
+        sweep(ctx, "Fcore<=3 x 11 subjects x 7 observer subsets x strict{t,f} x L0,LB", Space::Frags { k: F_CORE, max: 3 }, &few, l0);
+        sweep(ctx, "F<=3 x 11 subjects x 2 observer subsets x L0", Space::Frags { k, max: 3 }, &two, Levels { l1: false, l2_max_len: 0, bytewise: false, empties: false });
+        sweep(ctx, "10 foreign contexts x 55 foreign tag fragments<=2 x 11 subjects x 2 observer subsets x L0,L1", Space::Foreign { max: 2 }, &two, l1);
     } else {
         let full = build_pairs(&subjects, &all_masks, &[true, false]);
         let few = build_pairs(&subjects, &few_masks, &[true, false]);
         sweep(ctx, "F<=2 x all pairs x L0,L1,LB", Space::Frags { k, max: 2 }, &full, Levels { l1: true, l2_max_len: 0, bytewise: true, empties: false });
-        foreign(&full, Levels { l1: true, l2_max_len: 64, bytewise: true, empties: true }, "16 foreign-content documents x all pairs x L0,L1,L2,LB,LE");
-        sweep(ctx, "F<=3 x 10 subjects x 7 observer subsets x strict{t,f} x L0,L1", Space::Frags { k, max: 3 }, &few, l1);
-        sweep(ctx, "Fcore<=4 x 10 subjects x 7 observer subsets x L0,LB", Space::Frags { k: F_CORE, max: 4 }, &few, l0);
-        sweep(ctx, "B16<=5 x 10 subjects x 7 observer subsets x L0,L1", Space::Bytes { max: 5 }, &few, l1);
-        sweep(ctx, "7 foreign contexts x 55 foreign tag fragments<=2 x 10 subjects x 7 observer subsets x strict{t,f} x L0,L1", Space::Foreign { max: 2 }, &few, l1);
+        foreign(&full, Levels { l1: true, l2_max_len: 64, bytewise: true, empties: true }, "17 foreign-content documents x all pairs x L0,L1,L2,LB,LE");
+        sweep(ctx, "F<=3 x 11 subjects x 7 observer subsets x strict{t,f} x L0,L1", Space::Frags { k, max: 3 }, &few, l1);
+        sweep(ctx, "Fcore<=4 x 11 subjects x 7 observer subsets x L0,LB", Space::Frags { k: F_CORE, max: 4 }, &few, l0);
+        sweep(ctx, "B16<=5 x 11 subjects x 7 observer subsets x L0,L1", Space::Bytes { max: 5 }, &few, l1);
+        sweep(ctx, "10 foreign contexts x 55 foreign tag fragments<=2 x 11 subjects x 7 observer subsets x strict{t,f} x L0,L1", Space::Foreign { max: 2 }, &few, l1);
     }
     ctx.finish(
         "model_checking",
